@@ -385,6 +385,19 @@ func (f *Frame) callContract(i *ssa.Call, g *ssa.Function, fc2 *FuncContract, ke
 		post.vars[k] = v
 	}
 	bindResults(post.vars, resT, vals)
+	for _, df := range fc2.GhostDefs {
+		// the callee's ghost assignment at its return (its right-hand side speaks about old() ghost values and results)
+		if df.Expr.Op != "binary" || df.Expr.Args[0].Op != "ident" {
+			continue
+		}
+		name := df.Expr.Args[0].Name
+		v, err := post.eval(df.Expr.Args[1])
+		if err != nil {
+			c.errorf("%s: defines of %s at call: %v", df.Where, key, err)
+			continue
+		}
+		c.assume(r, "(= "+c.ghostTerm(st, name)+" "+v.T+")")
+	}
 	for _, en := range enss {
 		g2, err := post.evalBool(en.Expr)
 		if err != nil {
@@ -641,6 +654,9 @@ func (f *Frame) callLib(i *ssa.Call, g *ssa.Function, args []Val, st *State, r s
 		c.decls = append(c.decls, "(declare-fun "+pm+" (Int) Int)")
 		c.assume(r, "(forall ((a! Int)) (! (=> (and (<= 0 a!) (< a! "+c.slLen(res)+")) (and (<= 0 ("+pm+" a!)) (< ("+pm+" a!) "+c.slLen(s)+") (= (select "+c.slArr(res)+" a!) (select "+c.slArr(s)+" ("+pm+" a!))))) :pattern ((select "+c.slArr(res)+" a!))))")
 		c.assume(r, "(forall ((a! Int) (b! Int)) (! (=> (and (<= 0 a!) (< a! b!) (< b! "+c.slLen(res)+")) (not (= ("+pm+" a!) ("+pm+" b!)))) :pattern (("+pm+" a!) ("+pm+" b!))))")
+		// ... and nothing is lost: every element of the argument occurs in the result (inverse of perm)
+		c.decls = append(c.decls, "(declare-fun "+pm+".inv (Int) Int)")
+		c.assume(r, "(forall ((a! Int)) (! (=> (and (<= 0 a!) (< a! "+c.slLen(s)+")) (and (<= 0 ("+pm+".inv a!)) (< ("+pm+".inv a!) "+c.slLen(res)+") (= (select "+c.slArr(res)+" ("+pm+".inv a!)) (select "+c.slArr(s)+" a!)))) :pattern ((select "+c.slArr(s)+" a!))))")
 		if s.Origin != nil {
 			c.store(st, s.Origin, res)
 		} else {
